@@ -43,8 +43,10 @@ def gen_cases(rng, tier):
         kind = rng.choice(["scan", "get_match", "delete_match", "invalidate", "tx_scan", "tx_get_match", "tx_delete_match"])
         c = {"kind": kind, "keys": keys, "pattern": pat, "facade": rng.random() < 0.5,
              "expired": [k for k in keys if rng.random() < 0.2]}
+        # some keys hold a bit field (created with incr_bits): ordinary keys for scan / delete_match, never a (key, value) of get_match
+        c["bits"] = [k for k in keys if k not in c["expired"] and rng.random() < 0.15] if kind != "invalidate" else []
         if kind.startswith("tx_"):
-            roles = {k: rng.choice(["B", "L", "D", "BL", "BD"]) for k in keys}
+            roles = {k: ("B" if k in c["bits"] else rng.choice(["B", "L", "D", "BL", "BD"])) for k in keys}
             c["roles"] = roles
             c["mode"] = rng.choice(["fast", "locked"])
             c["expired"] = []
@@ -71,7 +73,8 @@ def run_impl(case):
         try:
             if not kind.startswith("tx_"):
                 for k in case["keys"]:
-                    await mem.set(k, "v:" + k, expire=1 if k in case["expired"] else None)
+                    if k in case.get("bits", ()): await mem.incr_bits(k, 0)
+                    else: await mem.set(k, "v:" + k, expire=1 if k in case["expired"] else None)
                 await asyncio.sleep(2)
                 live = [k for k in case["keys"] if k not in case["expired"]]
                 if kind == "scan":
@@ -90,7 +93,8 @@ def run_impl(case):
                 return {"out": sorted(out), "err": None}
             roles = case["roles"]
             for k, r in roles.items():
-                if "B" in r:
+                if k in case.get("bits", ()): await mem.incr_bits(k, 0)
+                elif "B" in r:
                     await mem.set(k, "v:" + k)
             mode = TransactionMode.FAST if case["mode"] == "fast" else TransactionMode.LOCKED
             async with cache.transaction(mode=mode):
@@ -133,13 +137,14 @@ def to_coq(case, obs):
     out = None if obs["out"] is None else Some(_ks(obs["out"]))
     kind = case["kind"]
     p = S(case["pattern"])
+    hidden = set(case.get("bits", ())) if kind in ("get_match", "tx_get_match") else set()     # a bit field is not a value
     if kind.startswith("tx_"):
         roles = case["roles"]
         L = [k for k in case["keys"] if "L" in roles[k]]
-        B = [k for k in case["keys"] if "B" in roles[k]]
+        B = [k for k in case["keys"] if "B" in roles[k] and k not in hidden]
         D = [k for k in case["keys"] if "D" in roles[k]]
         return C("CTxDel" if kind == "tx_delete_match" else "CTx", _ks(L), _ks(B), _ks(D), p, out)
-    live = [k for k in case["keys"] if k not in case["expired"]]
+    live = [k for k in case["keys"] if k not in case["expired"] and k not in hidden]
     return C("CDel" if kind in ("delete_match", "invalidate") else "CScan", _ks(live), p, out)
 
 
@@ -156,7 +161,8 @@ def nontrivial(case, obs):
 
 def classify(case, obs):
     return {"kind_" + case["kind"]: 1, "raised": int(obs["out"] is None), "pattern_has_meta": int(bool(set(case["pattern"]) & META)),
-            "pattern_has_star": int("*" in case["pattern"]), "expired_entries": len(case["expired"]), "selected": len(obs["out"] or [])}
+            "pattern_has_star": int("*" in case["pattern"]), "expired_entries": len(case["expired"]), "bit_field_keys": len(case.get("bits", ())),
+            "selected": len(obs["out"] or [])}
 
 
 def shrink(case):
@@ -164,6 +170,8 @@ def shrink(case):
     for i in range(len(ks)):
         c = dict(case); c["keys"] = ks[:i] + ks[i + 1:]
         c["expired"] = [k for k in case["expired"] if k in c["keys"]]
+        c["bits"] = [k for k in case.get("bits", ()) if k in c["keys"]]
+        if "roles" in case: c["roles"] = {k: v for k, v in case["roles"].items() if k in c["keys"]}
         if c["keys"]: yield c
     p = case["pattern"]
     for i in range(len(p)):
